@@ -125,7 +125,8 @@ fn window_growth<const N: usize>(max_pn_bytes: usize, bound: u64) {
     assert!(grow == if pn > next { pn - next } else { 0 }, "placeholders requested == pn - next expected");
     assert!(j.queue.offset() == off);
     kani::cover!(grow > 100, "large jump accepted");
-    kani::cover!(pn < next, "fills a hole: nothing requested");
+    kani::cover!(N == 0 || pn < next, "fills a hole: nothing requested");
+    kani::cover!(grow > bound / 2 + 1, "jump beyond half the bound: only possible while the expected number is below the encoding's window");
     assert!(grow <= bound, "C04: records allocated for ONE received packet number <= bound");
     core::mem::forget(j);
 }
@@ -140,31 +141,33 @@ fn c04_rcvdwin_growth_any_pn() {
     window_growth::<2>(4, 1 << 16);
 }
 
-/// passing twin: 1- and 2-byte encodings jump by at most 2^15.
+/// passing twin: 1- and 2-byte encodings jump by less than 2^16 (not 2^15: while the expected
+/// number is below the window size, RFC 9000 A.3 / PacketNumber::decode cannot wrap downwards, so
+/// the decoded number may be anything below 2^16).
 #[kani::proof]
 #[kani::unwind(6)]
 #[kani::stub(tokio::time::Instant::now, stub_now)]
 #[kani::stub(verif_model::VecDeque::resize, stub_resize)]
 fn c04_rcvdwin_growth_short_pn() {
-    window_growth::<2>(2, 1 << 15);
+    window_growth::<2>(2, (1 << 16) - 1);
 }
 
-/// passing twin: the largest jump any encoding can cause is 2^31 (a constant, but 2^31 records of
-/// size_of::<State>() bytes each).
+/// passing twin: the largest jump any encoding can cause is 2^32 - 1 (a constant, but 2^32 records
+/// of size_of::<State>() bytes each; 2^31 once the window has moved past 2^32).
 #[kani::proof]
 #[kani::unwind(6)]
 #[kani::stub(tokio::time::Instant::now, stub_now)]
 #[kani::stub(verif_model::VecDeque::resize, stub_resize)]
-fn c04_rcvdwin_growth_le_2p31() {
-    window_growth::<2>(4, 1 << 31);
+fn c04_rcvdwin_growth_lt_2p32() {
+    window_growth::<2>(4, (1 << 32) - 1);
 }
 
 #[kani::proof]
 #[kani::unwind(6)]
 #[kani::stub(tokio::time::Instant::now, stub_now)]
 #[kani::stub(verif_model::VecDeque::resize, stub_resize)]
-fn c04_rcvdwin_growth_le_2p31_n0() {
-    window_growth::<0>(4, 1 << 31);
+fn c04_rcvdwin_growth_lt_2p32_n0() {
+    window_growth::<0>(4, (1 << 32) - 1);
 }
 
 /// Ties the recorder to the real container: with the REAL (model) resize and a jump of at most 2
@@ -215,7 +218,7 @@ fn ack_no_ranges(largest: u64, first: u64) -> AckFrame {
 /// Tie: on a journal with an empty window and ONE remembered ACK-carrying packet number, the real
 /// on_rcvd_ack performs exactly (numbers enumerated by AckFrame::iter) + 1 set lookups: one per
 /// acknowledged packet number (the filter) and one for the retain over the single remembered
-/// number. Frames with <= 3 acknowledged numbers (loop unwinding).
+/// number. Frames with <= 2 acknowledged numbers (loop unwinding).
 #[kani::proof]
 #[kani::unwind(6)]
 #[kani::stub(tokio::time::Instant::now, stub_now)]
@@ -230,7 +233,7 @@ fn c04_rcvd_on_ack_work_is_range_total() {
     j.packet_include_ack.insert(carrier);
     let largest: u64 = kani::any();
     let first: u64 = kani::any();
-    kani::assume(largest < M62 && first <= largest && first <= 2);
+    kani::assume(largest < M62 && first <= largest && first <= 1);
     let f = ack_no_ranges(largest, first);
     let mut total = 0u64;
     for r in f.iter() {
@@ -241,8 +244,8 @@ fn c04_rcvd_on_ack_work_is_range_total() {
     assert!(unsafe { CONTAINS_CALLS } == total + 1, "one lookup per acknowledged packet number (+1 for retain)");
     let acked = carrier <= largest && carrier >= largest - first;
     assert!(j.packet_include_ack.len() == if acked { 0 } else { 1 }, "the carrier is forgotten iff it was acknowledged");
-    kani::cover!(acked && first == 2);
-    kani::cover!(!acked && first == 2);
+    kani::cover!(acked && first == 1);
+    kani::cover!(!acked && first == 1);
     core::mem::forget(j);
 }
 
